@@ -140,7 +140,21 @@ def rule_emptyfill(ctx):
                 byloop.setdefault(loops[0] if loops else None, []).append(m)
             for lid, group in byloop.items():
                 if lid is None:
-                    yield ob("C15.EMPTYFILL", f, "%s:%s" % (f.qual, root), True, "np.empty buffer %r stored outside a loop" % root, node=group[0].node)
+                    # straight-line stores: some store covers the whole buffer (b[:] = .., b[...] = ..), or a mask and its
+                    # complement are both stored; a single masked / indexed store leaves the rest as the allocator left it
+                    def _full(k):
+                        if k.op == "slice":
+                            return all(tm.is_const(z, None) for z in k.a)
+                        if k.op == "tuple":
+                            return all(_full(z) for z in k.a)
+                        return k.op == "ext" and k.a[0] in ("Ellipsis", "builtins.Ellipsis") or (k.op == "const" and k.a[0] is Ellipsis)
+
+                    keys = [m.key for m in group if m.key is not None and hasattr(m.key, "op")]
+                    whole = any(_full(k) for k in keys)
+                    masks = [k for k in keys if k.op in ("cmp", "bool", "un") or (k.op == "call" and call_name(k) in ("np.logical_not", "np.logical_and", "np.logical_or", "np.isnan", "np.isfinite", "np.flatnonzero", "np.where", "np.nonzero", "np.argwhere"))]
+                    compl = any((a_.op == "un" and a_.a[0] in ("~", "not") and a_.a[1] is b_) or (a_.op == "call" and call_name(a_) == "np.logical_not" and a_.a[1] and a_.a[1][0] is b_) for a_ in masks for b_ in masks)
+                    partial = bool(masks) and not whole and not compl
+                    yield ob("C15.EMPTYFILL", f, "%s:%s" % (f.qual, root), not partial, ("np.empty buffer %r stored outside a loop" % root) if not partial else "np.empty buffer %r is only written under the mask %s: the other entries keep whatever the allocator left there (the result depends on earlier calls)" % (root, tm.show(masks[0], 3)), node=group[0].node)
                     continue
                 rels = [_loop_rel(m.pc, lid) for m in group]
                 rels = [[c for c in r if c[0] in ("if",)] for r in rels]
